@@ -118,7 +118,22 @@ func VerifC15_Leaf() {
 		// symbolic integer, squared for two.
 		n = 1
 	}
-	it := c15Leaf(kind, n)
+	var it secs2.Item
+	if kind <= 7 && n == 2 {
+		// thorough: integer items of two elements = one fully symbolic element + one boundary value
+		// (two symbolic integers square the ~200 paths strconv costs per symbolic integer)
+		one := c15Leaf(kind, 1)
+		w := []int{1, 2, 4, 8, 1, 2, 4, 8}[kind]
+		if kind <= 3 {
+			a, _ := one.IntAt(0)
+			it = secs2.NewIntItem(w, a, []int64{-1, 0, 100}[vsymChoose(3)])
+		} else {
+			a, _ := one.UintAt(0)
+			it = secs2.NewUintItem(w, a, []uint64{0, 9, 255}[vsymChoose(3)])
+		}
+	} else {
+		it = c15Leaf(kind, n)
+	}
 	vsymAssert(it.Error() == nil, "item-error-free")
 	vsymReach("compared")
 	strEq(Encode(it), it.ToSML(), "encoder-equals-ToSML")
